@@ -69,26 +69,28 @@ def main(args):
         _, rej = check.validate_trace_only(scratch, "Trace_Path.tla", "Trace_Path.cfg", 300)
         print("  count of event %d altered: %s" % (idx + 1, "rejected at %s" % rej if rej is not None else "ACCEPTED"))
         ok &= rej == idx + 1
-        # drop one mutating event: the chained state no longer matches
+        # drop one mutating event: the chained state no longer matches (unless a later event of the session happens to
+        # overwrite everything the dropped one changed: candidates are tried in turn, the first rejected one shows the binding)
         evs = [json.loads(l) for l in lines]
-        midx = None
+        cands = []
         for i, e in enumerate(evs):
             if e.get("op") == "upd" and e.get("c", 0) > 0:
-                # a later mutating event of the same session logs the whole post-state: it must then disagree
                 j = i + 1
                 while j < len(evs) and evs[j].get("op") != "reset":
                     if "post" in evs[j]:
-                        midx = i
+                        cands.append(i)
                         break
                     j += 1
-            if midx is not None:
+        shown = False
+        for midx in cands[:8]:
+            dropped = lines[:midx] + lines[midx + 1:]
+            open(trace, "w").write("\n".join(dropped) + "\n")
+            _, rej = check.validate_trace_only(scratch, "Trace_Path.tla", "Trace_Path.cfg", 300)
+            print("  event %d removed: %s" % (midx + 1, "rejected at %s" % rej if rej is not None else "accepted (its effect is overwritten later in the session)"))
+            if rej is not None:
+                shown = True
                 break
-        dropped = lines[:midx] + lines[midx + 1:]
-        open(trace, "w").write("\n".join(dropped) + "\n")
-        _, rej = check.validate_trace_only(scratch, "Trace_Path.tla", "Trace_Path.cfg", 300)
-        print("  event %d removed: %s" % (midx + 1, "rejected at %s" % rej if rej is not None else "ACCEPTED"))
-        ok &= rej is not None
-
+        ok &= shown
         print("2b. recorded XML sessions: accepted / rejected when a logged result or a setter call is altered")
         info, summ, rej = check.record_trace_validate(scratch, harness, "xml", "Trace_Xml.tla", "Trace_Xml.cfg", 7, 1200, 300)
         print("  original trace: %s" % ("accepted" if rej is None else "REJECTED at %s" % rej))
